@@ -378,6 +378,10 @@ impl<T: Qcow2IoOps> Qcow2Dev<T> {
                 self.call_fsync(0, usize::MAX, 0).await?;
             }
             self.flush_table(rt, idx << bs_bits, 1 << bs_bits).await?;
+
+            // whatever is written next (mapping slices after the reftable,
+            // or the header) may depend on this block
+            self.call_fsync(0, usize::MAX, 0).await?;
             Ok(false)
         } else {
             // flush cache without holding top table read lock
